@@ -229,7 +229,7 @@ func (s *SMF) calculateAbsTimes() {
 		prevTempo := s.tempoChanges.TempoAt(tc.AbsTicks - 1)
 		//fmt.Printf("tc at: %v diff ticks: %v (uint32: %v)\n", tc.AbsTicks, diffTicks, uint32(diffTicks))
 		// calculate time for diffTicks with the help of the last tempo and the MetricTicks
-		tc.AbsTimeMicroSec = prevTime + mt.Duration(prevTempo, uint32(diffTicks)).Microseconds()
+		tc.AbsTimeMicroSec = prevTime + mt.duration64(prevTempo, diffTicks).Microseconds()
 
 		lasttcTick = tc.AbsTicks
 		lasttcTimeMicroSec = tc.AbsTimeMicroSec
@@ -242,9 +242,9 @@ func (s *SMF) TimeAt(absTicks int64) (absTimeMicroSec int64) {
 	mt := s.TimeFormat.(MetricTicks)
 	prevTc := s.tempoChanges.TempoChangeAt(absTicks - 1)
 	if prevTc == nil {
-		return mt.Duration(120.00, uint32(absTicks)).Microseconds()
+		return mt.duration64(120.00, absTicks).Microseconds()
 	}
-	return prevTc.AbsTimeMicroSec + mt.Duration(prevTc.BPM, uint32(absTicks-prevTc.AbsTicks)).Microseconds()
+	return prevTc.AbsTimeMicroSec + mt.duration64(prevTc.BPM, absTicks-prevTc.AbsTicks).Microseconds()
 }
 
 // NumTracks returns the number of tracks
